@@ -10,6 +10,15 @@ FLAVOURS = [
     "a type or emptiness subtlety: bytes vs str, int vs str, None vs '' vs 0 vs False, `or` used for defaulting, truthiness of containers",
     "a regular expression or string constant edited slightly: anchoring, a character class, greedy vs lazy, a flag, an alternation order, a delimiter",
 ]
+FLAVOURS_6 = [
+    "a data table edited: an entry added, removed, reordered or misspelled in a list, set, dict of constants or regex alternation",
+    "exception handling: a try/except widened or narrowed, an error swallowed, a default returned where an exception (or None) used to come out, or the reverse",
+    "a sibling left behind: two near-identical functions / classes / branches (str vs bytes, normalized vs fingerprinted, one platform vs another, set vs match) and only one of them updated",
+    "a contract between a helper and its callers shifted: a default argument value, None vs '' vs [] as 'nothing', the order of a returned tuple, an optional flag - and one caller not adapted",
+    "a performance rewrite: a precomputed table, a set instead of a list, one regex instead of two passes, slicing / partition instead of split, a loop exited early",
+]
+if int(R) >= 6:
+    FLAVOURS = FLAVOURS_6
 TEMPLATE = open(os.path.join(os.path.dirname(os.path.abspath(__file__)), "seed_prompt_template.txt")).read()
 props = [json.loads(l) for l in open("/verif/properties.jsonl")]
 for i, p in enumerate(props):
